@@ -417,6 +417,13 @@ func (tr *Tracer) builtin(st *state, site ssa.Instruction, b *ssa.Builtin, args 
 				return symInt(int64(len(s)), rt)
 			}
 		}
+		if a.Kind == KAlloc && len(a.Args) == 2 {
+			// len/cap of a slice made in this path
+			if b.Name() == "len" {
+				return a.Args[0]
+			}
+			return a.Args[1]
+		}
 		if a.Typ != nil {
 			switch u := a.Typ.Underlying().(type) {
 			case *types.Map, *types.Chan:
